@@ -35,7 +35,12 @@
 //   port <i> W cond=<0|1> rmw=<j|-> share=<j|->   write port; data = pin (xor async data of read port j)
 //   mem <w0> <w1> ...                 DECLARED power-on contents, one 0/1/x string per word (whether they are loaded: initmem= / ROM)
 //   pre <ok|e>   post <ok|e reason>   whether simulation before / postprocess+simulation after worked (e = gatery threw; reason = hint text)
-//   c <t> ; <port inputs in declaration order: R: en addr | W: en wrEn addr data> ; <async read data> ; <pins pre> ; <pins post> [; per read port the stage enables e.g. 1,-,0]
+//   pin <k> <a|d|e|r> port=<i> sub=<j> w=<width>   the input pins in stimulus order: address / write data / IF condition of a write /
+//                                     ENIF enable number j of the read registers of port i (the port lines say who else uses them)
+//   c <t> ; <values sampled at the inputs of the Node_MemPort of each declared port: R: en addr | W: en wrEn addr data> ; <async read data> ;
+//         <pins pre> ; <pins post> ; <per read port the stage enables e.g. 1,-,0 (informative)> ; <the applied stimulus, one value per pin>
+// The driver derives address / enable / data of every port from the stimulus and the declared program and only COMPARES the sampled
+// Node_MemPort inputs with that (model and specification never take an input from the implementation).
 //   end
 // Port inputs and async read data are sampled on the netlist as built (before post-processing) right before the clock edge;
 // "-" = input not connected. Pins are the pinOut()s behind L registers.
@@ -45,6 +50,7 @@
 #include <gatery/hlim/supportNodes/Node_Memory.h>
 #include <gatery/hlim/supportNodes/Node_External.h>
 #include <map>
+#include <set>
 #include <algorithm>
 #include <gatery/scl/arch/intel/IntelDevice.h>
 #include <gatery/scl/arch/xilinx/XilinxDevice.h>
@@ -61,6 +67,7 @@ struct PortCfg {
 	bool cond = false;   // write under IF (en)
 	int rmw = -1;        // write data = pin ^ async data of that (earlier) read port
 	int share = -1;      // address pin shared with that earlier port
+	int addrExtra = 0;   // own address pin: this many bits wider (+) / narrower (-1) than the memory's address (frontend truncates / zero extends)
 	int enOf = -1;       // write port: declared inside ENIF(enable pin 0 of that earlier read port)
 	int enFrom = -1;     // read port: its stage enables use the enable pins of that earlier read port (same ENIF scope)
 	bool rdEn = false;                 // read port: some of the L registers sit under ENIF
@@ -145,15 +152,24 @@ static void build(DesignScope &design, CaseCfg &c, Built &b, bool withResetNet =
 	size_t pw = std::max<size_t>(aw, 1);   // a depth-1 memory has a zero-width address: the frontend truncates the 1-bit pin
 	std::vector<UInt> addrOf(c.ports.size()), rdData(c.ports.size());
 	std::vector<std::vector<Bit>> renOf(c.ports.size());
+	// the Node_MemPort each declared port created (found as the node that is new after the declaration; independent of Node_Memory::getPorts())
+	std::set<hlim::BaseNode*> seenPorts;
+	auto newMemPort = [&]() -> hlim::Node_MemPort* {
+		hlim::Node_MemPort *res = nullptr;
+		for (auto &n : design.getCircuit().getNodes()) if (auto *mp = dynamic_cast<hlim::Node_MemPort*>(n.get())) if (!seenPorts.contains(mp)) { seenPorts.insert(mp); res = mp; }
+		return res;
+	};
 	for (size_t i = 0; i < c.ports.size(); i++) {
 		const PortCfg &p = c.ports[i];
 		if (p.share >= 0) addrOf[i] = addrOf[p.share];
 		else {
-			addrOf[i] = pinIn(BitWidth(pw)).setName("a" + std::to_string(i));
-			b.inPins.push_back(pinOf(addrOf[i])); b.inWidths.push_back(pw); b.inKind.push_back(0); b.inPort.push_back((int) i); b.inSub.push_back(0);
+			size_t apw = (size_t) std::max<long>(1, (long) aw + p.addrExtra);
+			addrOf[i] = pinIn(BitWidth(apw)).setName("a" + std::to_string(i));
+			b.inPins.push_back(pinOf(addrOf[i])); b.inWidths.push_back(apw); b.inKind.push_back(0); b.inPort.push_back((int) i); b.inSub.push_back(0);
 		}
 		if (!p.isWrite) {
 			rdData[i] = mem[addrOf[i]];
+			b.memPorts.push_back(newMemPort());
 			UInt o = rdData[i];
 			if (!p.outXor.empty()) { std::string lit = std::to_string(c.width) + "b" + p.outXor; UInt k = lit.c_str(); o = o ^ k; }
 			std::vector<Bit> ren;
@@ -189,12 +205,9 @@ static void build(DesignScope &design, CaseCfg &c, Built &b, bool withResetNet =
 					mem[addrOf[i]] = data;
 			};
 			if (p.enOf >= 0 && !renOf[p.enOf].empty()) { ENIF (renOf[p.enOf][0]) doWrite(); } else doWrite();
+			b.memPorts.push_back(newMemPort());
 		}
 	}
-	// the memory ports in declaration order
-	hlim::Node_Memory *memNode = nullptr;
-	for (auto &n : design.getCircuit().getNodes()) if (auto *m = dynamic_cast<hlim::Node_Memory*>(n.get())) memNode = m;
-	for (auto np : memNode->getPorts()) b.memPorts.push_back(dynamic_cast<hlim::Node_MemPort*>(np.node));
 }
 
 using Stim = std::vector<std::vector<std::string>>; // [cycle][pin]
@@ -216,7 +229,11 @@ static Stim genStim(vh::Rng &rng, const CaseCfg &c, const Built &b, size_t ncycl
 			if (b.inKind[i] == 0) {
 				uint64_t a = burst ? burstAddr : (rng.chance(1, 2) ? hot[rng.below(hot.size())] : rng.below(c.depth));
 				if (mode == 4 && (size_t(1) << aw) > c.depth && rng.chance(1, 4)) a = c.depth + rng.below((size_t(1) << aw) - c.depth);
-				std::string s = bitsOf(a, pw);
+				// the pin may be wider (upper bits random, the frontend drops them) or narrower (zero extended) than the memory address
+				size_t w = b.inWidths[i], low = std::min(w, aw);
+				if (low < aw) a = low ? a & ((uint64_t(1) << low) - 1) : 0;
+				std::string s = (w > low ? randBits(rng, w - low) : std::string()) + bitsOf(a, low);
+				if (aw == 0) s = bitsOf(0, w);
 				if (mode == 3 && rng.chance(1, 12)) s[rng.below(s.size())] = 'x';
 				row.push_back(s);
 			} else if (b.inKind[i] == 3) {
@@ -325,6 +342,7 @@ static CaseCfg genCase(vh::Rng &rng, int mode) {
 		PortCfg p; p.isWrite = kinds[i];
 		if (i > 0 && rng.chance(1, 3)) p.share = (int) rng.below(i);
 		if (p.share >= 0 && c.ports[p.share].share >= 0) p.share = c.ports[p.share].share;
+		if (p.share < 0 && (mode == 0 || mode == 9 || mode == 11) && rng.chance(1, 4)) p.addrExtra = log2c(c.depth) >= 2 && rng.chance(1, 3) ? -1 : 1 + (int) rng.below(2);
 		if (!p.isWrite && c.L > 0 && rng.chance(1, 4)) p.outXor = randBits(rng, c.width);
 		if (!p.isWrite && (mode == 9 || mode == 10)) {
 			p.rdEn = useRdEn && rng.chance(3, 4);
@@ -403,7 +421,7 @@ static void runCase(const std::string &id, vh::Rng &rng, size_t ncycles, int mod
 	std::string preRes = "ok", postRes = "ok";
 	size_t resetCycles = 0;
 	std::string netInfo = "-";
-	std::vector<std::string> renField;
+	std::vector<std::string> renField, pinDecl;
 	Stim st;
 	if (c.init == 4) {
 		// a memory with an addResetLogic network cannot be simulated as built (the network from INITIALIZATION_ADDR back to
@@ -428,6 +446,11 @@ static void runCase(const std::string &id, vh::Rng &rng, size_t ncycles, int mod
 			if (c.init != 4) {
 				st = genStim(rng, c, b, ncycles, mode);
 				simulate(design, b, st, true, internals, pinsPre);
+			}
+			// the pins the stimulus is applied to: kind a(ddress) d(ata) e(write condition IF) r(ead register enable ENIF), declared port, number, width
+			for (size_t k = 0; k < b.inPins.size(); k++) {
+				std::ostringstream o; o << "pin " << k << " " << "aedr"[b.inKind[k] == 0 ? 0 : b.inKind[k] == 1 ? 1 : b.inKind[k] == 2 ? 2 : 3] << " port=" << b.inPort[k] << " sub=" << b.inSub[k] << " w=" << b.inWidths[k];
+				pinDecl.push_back(o.str());
 			}
 			if ((mode == 9 || mode == 10))   // the read enable pins, one column per read port
 				for (auto &row : st) {
@@ -489,7 +512,7 @@ static void runCase(const std::string &id, vh::Rng &rng, size_t ncycles, int mod
 		const PortCfg &p = c.ports[i];
 		std::cout << "port " << i << (p.isWrite ? " W" : " R");
 		if (p.isWrite) std::cout << " cond=" << (p.cond ? 1 : 0) << " rmw=" << (p.rmw >= 0 ? std::to_string(p.rmw) : "-") << " enof=" << (p.enOf >= 0 ? std::to_string(p.enOf) : "-");
-		std::cout << " share=" << (p.share >= 0 ? std::to_string(p.share) : "-");
+		std::cout << " share=" << (p.share >= 0 ? std::to_string(p.share) : "-") << " aextra=" << p.addrExtra;
 		if (!p.isWrite) {
 			std::cout << " xor=" << (p.outXor.empty() ? "-" : p.outXor) << " en=" << (p.rdEn ? 1 : 0) << " sten=";
 			if (p.stEn.empty()) std::cout << "-"; for (size_t k = 0; k < p.stEn.size(); k++) std::cout << (k ? "," : "") << (p.stEn[k] < 0 ? std::string("-") : std::to_string(p.stEn[k]));
@@ -498,10 +521,13 @@ static void runCase(const std::string &id, vh::Rng &rng, size_t ncycles, int mod
 		}
 		std::cout << "\n";
 	}
+	for (auto &l : pinDecl) std::cout << l << "\n";
 	std::cout << "mem"; for (auto &w : c.initWords) std::cout << ' ' << w; std::cout << "\n";
 	std::cout << "pre " << preRes << "\npost " << postRes << "\nnet " << netInfo << "\n";
 	for (size_t t = 0; t < internals.size(); t++) {
-		std::cout << "c " << t << " ;" << internals[t] << " ;" << pinsPre[t] << " ;" << (t < pinsPost.size() ? pinsPost[t] : std::string(" -")) << (t < renField.size() ? " ;" + renField[t] : std::string()) << "\n";
+		std::cout << "c " << t << " ;" << internals[t] << " ;" << pinsPre[t] << " ;" << (t < pinsPost.size() ? pinsPost[t] : std::string(" -")) << " ;" << (t < renField.size() ? renField[t] : std::string(" -")) << " ;";
+		for (auto &v : st[t]) std::cout << ' ' << v;
+		std::cout << "\n";
 	}
 	std::cout << "end\n";
 }
